@@ -135,7 +135,20 @@ def run (ctx):
     ctx.ob('R-AGREE', cwr, "the entry tried is the entry recorded", norm(a.args[0]) == norm(t_.args[0]), "%s / %s" % (norm(a), norm(t_)), cwr, 'D3')
     e_def = q.single_def(cwr.node, norm(a.args[0]))
     good = isinstance(e_def, ast.Tuple) and [norm(x) for x in e_def.elts] == ['callback', 'name', 'components', 'args', 'kw']
-    ctx.ob('R-AGREE', cwr, "entry layout matches what _try_waiter unpacks", good, norm(e_def) if e_def is not None else "?", cwr, 'D3')
+    if not good and isinstance(e_def, ast.Tuple) and len(e_def.elts) == 5:
+      # locals under other names: each position still derives from the parameter of that role
+      def closure_ (e, depth=0):
+        out = set(n_.id for n_ in ast.walk(e) if isinstance(n_, ast.Name))
+        if depth < 3:
+          for nm_ in list(out):
+            for v_, st_, k_ in q.reaching_assign(cwr.node, nm_):
+              if v_ is not None: out |= closure_(v_, depth + 1)
+        return out
+      roles_ = ['callback', 'name', 'components', 'args', 'kw']
+      cl_ = [closure_(x) for x in e_def.elts]
+      good = all(r_ in c_ for r_, c_ in zip(roles_, cl_)) and all(not ((set(roles_) - {r_, 'callback'}) & (c_ & set(['components', 'args', 'kw']))) for r_, c_ in zip(roles_, cl_) if r_ in ('args', 'kw'))
+    if e_def is None: good = None
+    ctx.ob('R-AGREE', cwr, "entry layout matches what _try_waiter unpacks", good, norm(e_def) if e_def is not None else "entry not built from one tuple", cwr, 'D3')
   # ---- D4 fixpoint ---------------------------------------------------------------
   g = q.cfg_of(tws)
   fl = [(s_, h, a) for (s_, h, a) in g.loop_nodes if isinstance(s_, ast.For)]
@@ -212,10 +225,17 @@ def run (ctx):
     cn = q.enclosing_stmt_node(dg, callers[0][1])
     fs = q.fact_strs(dg, cn)
     empty = any(f in ('self._go_up_deferrals:falsy', 'len(self._go_up_deferrals) == 0') for f in fs)
+    # the outstanding deferrals may be kept as a set of tokens or as a count: whichever attribute the guard tests for "none left"
+    import re as _re
+    DA = '_go_up_deferrals'
+    for f_ in fs:
+      m_ = _re.match(r'^(?:len\()?self\.(\w+)\)?(?::falsy| == 0| <= 0| < 1)$', f_)
+      if m_ and m_.group(1) != 'starting_up': DA = m_.group(1); empty = True
     started = 'self.starting_up:falsy' in fs
     ctx.ob('R-DOM', gd, "stage 2 fires only when the last deferral is released", empty, "guarded by an empty deferral set" if empty else "facts %s" % fs, (mod, callers[0][1]), 'D6')
     ctx.ob('R-DOM', gd, "stage 2 never fires before going-up has begun", started, "guarded by not starting_up" if started else "a deferral released before goUp() raises UpEvent ahead of GoingUpEvent (facts %s)" % fs, (mod, callers[0][1]), 'D6')
-    rmv = dg.nodes_with_call(lambda c: call_name(c) in ('remove', 'discard') and '_go_up_deferrals' in norm(c.func.value))
+    rmv = dg.nodes_with_call(lambda c: call_name(c) in ('remove', 'discard') and DA in norm(c.func.value))
+    rmv += [n_ for n_ in dg.nodes if n_.ast is not None and isinstance(n_.ast, ast.AugAssign) and isinstance(n_.ast.op, ast.Sub) and norm(n_.ast.target) == 'self.' + DA]
     ctx.ob('R-ORDER', gd, "the deferral is withdrawn before the emptiness test", bool(rmv) and dg.dominates(rmv[0], cn), "remove dominates the stage-2 call", (mod, callers[0][1]), 'D6')
     tok = [norm(c.args[0]) for c in calls_in(d) if call_name(c) in ('remove', 'discard') and c.args]
     twice = [n for n in dg.nodes if n.kind == 'raise_stmt']
